@@ -111,6 +111,55 @@ pub fn universe() -> Vec<UVal> {
     ]
 }
 
+/// A random value beyond the fixed universe: doubles from raw bit patterns and near the boundaries, strings
+/// around the numeric-string grammar, small nested arrays with dictionary parts.
+pub fn random_value(rng: &mut crate::rng::Rng, depth: usize) -> V {
+    match rng.below(if depth >= 2 { 8 } else { 10 }) {
+        0 => rng.pick(&[V::Mys, V::Null, V::Bool(true), V::Bool(false)]).clone(),
+        1 => V::Num(f64::from_bits(rng.next_u64())),
+        2 => V::Num(rng.range(0, 20) as f64 - 10.0),
+        3 => {
+            let m = rng.range(0, 2000) as f64 - 1000.0;
+            V::Num(m / *rng.pick(&[1.0, 2.0, 3.0, 8.0, 10.0, 1e-3, 1e3, 1e17]))
+        }
+        4 => V::Num(*rng.pick(&[0.0, -0.0, f64::NAN, f64::INFINITY, f64::NEG_INFINITY, f64::MIN_POSITIVE, f64::EPSILON, 4503599627370496.5, 9007199254740993.0, -1e-310])),
+        5 => {
+            // numeric-looking text
+            let sign = *rng.pick(&["", "", "-", "+", " "]);
+            let int = rng.range(0, 120).to_string();
+            let frac = *rng.pick(&["", "", ".", ".0", ".5", ".25"]);
+            let exp = *rng.pick(&["", "", "", "e0", "e1", "E2", "e-1", "e+1", "e"]);
+            let tail = *rng.pick(&["", "", "", " ", "x", "\n", "_"]);
+            V::Str(format!("{}{}{}{}{}", sign, int, frac, exp, tail))
+        }
+        6 => V::Str(rng.pstr(&["nan", "NaN", "inf", "-inf", "Infinity", "infinity", "-Infinity", "+inf", "1_0", "0x10", "١", "1e400", "-1e400", "1e-400", "00", "-0.0", ".", "-", "+", "e1"]).to_string()),
+        7 => {
+            let n = rng.below(4);
+            let alphabet = ["a", "b", "A", "é", " ", "z", "0", "ß", "日"];
+            V::Str((0..n).map(|_| rng.pstr(&alphabet)).collect())
+        }
+        _ => {
+            let n = rng.below(4);
+            let seq = (0..n).map(|_| random_value(rng, depth + 1)).collect();
+            let mut dict = Vec::new();
+            if rng.chance(1, 3) {
+                for _ in 0..rng.range(1, 2) {
+                    let k = match rng.below(4) {
+                        0 => Key::Null,
+                        1 => Key::Bool(rng.coin()),
+                        2 => Key::Mys,
+                        _ => Key::Str(rng.pstr(&["k", "j", "", "1x"]).to_string()),
+                    };
+                    if !dict.iter().any(|(k2, _)| *k2 == k) {
+                        dict.push((k, random_value(rng, depth + 1)));
+                    }
+                }
+            }
+            V::Arr(Box::new(ArrV { seq, dict }))
+        }
+    }
+}
+
 /// model value -> rrss value (through the public API only)
 pub fn to_val(v: &V) -> Val {
     match v {
